@@ -89,6 +89,15 @@ pub struct Inner {
     pub fire_on: Option<(u8, usize)>,
     pub event_counts: [usize; 4],
     pub trigger: Arc<std::sync::atomic::AtomicBool>,
+    /// OS thread id of every worker (recorded when it starts)
+    pub tids: Vec<Option<u32>>,
+    /// bumped by every hook event and yield point: lets the controller see that the run moves on
+    pub progress: u64,
+    /// workers made Ready by a notification that have not reached a hook since: they execute library
+    /// code (they come back from the real condvar holding the mutex) although they do not hold the turn
+    pub waking: Vec<bool>,
+    /// the turn holder went to sleep outside of any hook (a wait that the hooks do not announce)
+    pub silent_parks: usize,
 }
 pub struct Sched {
     pub m: Mutex<Inner>,
@@ -141,6 +150,10 @@ impl Sched {
                 fire_on: None,
                 event_counts: [0; 4],
                 trigger: Arc::new(std::sync::atomic::AtomicBool::new(false)),
+                tids: vec![None; n],
+                progress: 0,
+                waking: vec![false; n],
+                silent_parks: 0,
             }),
             cv: Condvar::new(),
             fringe_len: Arc::new(AtomicUsize::new(0)),
@@ -243,6 +256,8 @@ impl Sched {
             None => return, // not a worker thread (e.g. the thread calling maximize)
         };
         let mut g = self.m.lock().unwrap();
+        g.progress += 1;
+        g.waking[i] = false;
         if site == "fine" && g.in_critical == Some(i) {
             // the worker holds the critical mutex (e.g. the cache is consulted from within
             // get_workload): yielding here would hand the turn to a worker that can only block on it
@@ -274,6 +289,16 @@ impl Sched {
                 return;
             }
         }
+        {
+            let mut g = self.m.lock().unwrap();
+            g.progress += 1;
+            if let Some(i) = WID.with(|w| w.get()) {
+                // (the notifier itself is not 'waking'; a woken worker reports here when it leaves get_workload)
+                if !matches!(e, Event::AfterNotifyAll) {
+                    g.waking[i] = false;
+                }
+            }
+        }
         match e {
             Event::Monitor(addr) => {
                 self.m.lock().unwrap().monitor_addr = Some(addr);
@@ -281,6 +306,7 @@ impl Sched {
             Event::WorkerStart(i) => {
                 WID.with(|w| w.set(Some(i)));
                 let mut g = self.m.lock().unwrap();
+                g.tids[i] = current_tid();
                 g.status[i] = WStat::Ready;
                 g.started += 1;
                 if g.started == g.n {
@@ -378,9 +404,10 @@ impl Sched {
                     }
                 }
                 let mut woke = 0;
-                for s in g.status.iter_mut() {
-                    if *s == WStat::Parked {
-                        *s = WStat::Ready;
+                for w in 0..g.n {
+                    if g.status[w] == WStat::Parked {
+                        g.status[w] = WStat::Ready;
+                        g.waking[w] = true;
                         woke += 1;
                     }
                 }
@@ -412,6 +439,21 @@ impl Sched {
     }
 }
 
+/// OS id of the calling thread (Linux: /proc/thread-self -> <pid>/task/<tid>)
+pub fn current_tid() -> Option<u32> {
+    std::fs::read_link("/proc/thread-self").ok().and_then(|p| p.file_name().and_then(|n| n.to_str()).and_then(|n| n.parse().ok()))
+}
+/// is that thread of this process asleep in the kernel (state 'S': futex wait and the like)? A thread that
+/// is merely waiting for a CPU is in state 'R'.
+pub fn thread_is_sleeping(tid: u32) -> bool {
+    match std::fs::read_to_string(format!("/proc/self/task/{tid}/stat")) {
+        Ok(s) => match s.rfind(')') {
+            Some(ix) => s[ix + 1..].trim_start().starts_with('S'),
+            None => false,
+        },
+        Err(_) => false,
+    }
+}
 /// non destructive probe: are threads queued on this parking_lot::Condvar ?
 /// (parking_lot 0.12: `struct Condvar { state: AtomicPtr<RawMutex> }`, null iff nobody waits; the
 /// layout assumption is verified by `condvar_probe_selftest`)
@@ -497,6 +539,7 @@ pub struct SchedReport {
     pub interleaved_inside_node: bool,
     pub abort_with_other_in_flight: bool,
     pub skipped_notifications: usize,
+    pub silent_parks: usize,
     pub trace_hash: u64,
     pub trace_len: usize,
     pub trace_tail: Vec<(usize, &'static str, &'static str)>,
@@ -589,7 +632,54 @@ pub fn run_scheduled(case: &ParCase, o: &Oracle, primals: Vec<(isize, Vec<ddo::D
             let _ = tx.send(Msg::Done(Box::new(out)));
         })
         .expect("cannot spawn the run thread");
-    let msg = rx.recv_timeout(Duration::from_secs(30));
+    // The controller. Besides waiting for the end of the run it watches the turn holder: a worker that goes to
+    // sleep in the kernel OUTSIDE of any hook (no event, nobody else executing library code, thread state 'S' on
+    // several consecutive looks) sits in a wait the hooks do not announce - e.g. a new wait site introduced by a
+    // change of the code under test. It is then treated exactly like an announced park (the turn moves on, a
+    // truthful notification makes it Ready again), so that a lost wake-up there is reported as the deadlock it
+    // is instead of stalling the harness until the wall-clock watchdog.
+    let t_start = std::time::Instant::now();
+    let mut last_progress = u64::MAX;
+    let mut sleepy = 0;
+    let msg = loop {
+        match rx.recv_timeout(Duration::from_millis(15)) {
+            Ok(m) => break Ok(m),
+            Err(std::sync::mpsc::RecvTimeoutError::Disconnected) => break Err(()),
+            Err(std::sync::mpsc::RecvTimeoutError::Timeout) => {
+                if t_start.elapsed() > Duration::from_secs(30) {
+                    break Err(());
+                }
+                let mut g = sched.m.lock().unwrap();
+                if g.stuck.is_some() || g.release {
+                    continue;
+                }
+                if g.progress != last_progress {
+                    last_progress = g.progress;
+                    sleepy = 0;
+                    continue;
+                }
+                let holder = g.current.filter(|c| g.status[*c] == WStat::Running);
+                match holder {
+                    Some(c) if !g.waking.iter().any(|w| *w) && g.tids[c].map_or(false, thread_is_sleeping) => {
+                        sleepy += 1;
+                        if sleepy >= 4 {
+                            sleepy = 0;
+                            g.trace.push((c, "silent-park", ""));
+                            g.status[c] = WStat::Parked;
+                            g.parks += 1;
+                            g.silent_parks += 1;
+                            if g.in_critical == Some(c) {
+                                g.in_critical = None;
+                            }
+                            g.current = None;
+                            sched.pick_next(&mut g, None);
+                        }
+                    }
+                    _ => sleepy = 0,
+                }
+            }
+        }
+    };
     let outcome = match msg {
         Ok(Msg::Done(out)) => {
             let _ = handle.join();
@@ -641,6 +731,7 @@ fn report(s: &Arc<Sched>) -> SchedReport {
         interleaved_inside_node: g.interleaved_inside_node,
         abort_with_other_in_flight: g.abort_with_other_in_flight,
         skipped_notifications: g.skipped_notifications,
+        silent_parks: g.silent_parks,
         trace_hash: fxhash::hash64(&g.trace),
         trace_len: g.trace.len(),
         trace_tail: tail,
